@@ -189,7 +189,7 @@ for pid in ids:
         ))
 manifest = dict(
     version=1,
-    setup_cmd="cd lean && lake build HvsrVerif hvsrdrv drv_c07 drv_c10 drv_c14 drv_c15 drv_c19 drv_c20",
+    setup_cmd="cd lean && lake build HvsrVerif hvsrdrv drv_c07 drv_c10 drv_c14 drv_c15 drv_c19 drv_c20 drv_py",
     hooks=dict(guard="HVSRPY_VERIF", enable="HVSRPY_VERIF=1 (set by the harness; no source hooks are needed)",
                baseline_off_cmd="cd /repo && /venv/bin/python -m pytest -ra -q -p no:cacheprovider --timeout=900 --continue-on-collection-errors",
                source_commits=[], add_only=True),
